@@ -29,7 +29,9 @@ ASSUMPTIONS = [
     'for all code points below 0x3100)',
     'texts are free of the line boundaries other than "\\n" that str.splitlines knows (\\r \\x0b \\x0c \\x1c-\\x1e \\x85 '
     'U+2028 U+2029): on those, constant strings and files split differently - that is C14 (known findings there)',
-    'the read-ahead line interval of `filter` is not repeated in this model (C13_filter_exact proves it exact)',
+    'the read-ahead line interval of `filter` is the C13 model (Model/Interval.v filter_impl); C05_filter_read_ahead_exact '
+    'composes it with this model for the binary-nested translation of the matcher (the parser builds n-ary && / ||; C13\'s '
+    'own correspondence covers the n-ary interval computation)',
 ]
 TRUSTED_EXTRA = ['Python reference evaluator in harness/c05.py: used only to enumerate oracle queries and to direct the '
                  'generator; verdicts come from Coq (Spec/C05.v sem_m / sem_t)']
@@ -49,39 +51,129 @@ REGEXES = [
     ('v(1|1\\.2|2)', False), ('(?:a|ab)(?:b|)', False), ('', False), ('é', True), ('a.b', False), (r'\t', False), ('B', False), ('a+', False), (r'\n\n', False), (r'\s', False),
 ]
 REPLACEMENTS = ['', 'X', 'b', ' ', r'\n', r'a\nb', r'\1', r'[\1]', r'\g<0>\g<0>', r'\\', '.', r'\t', 'aa', r'\n\n', r'-\g<0>-']
-_COMPILED = [re.compile(p, re.IGNORECASE if ic else 0) for p, ic in REGEXES]
+N_FIXED_REGEXES = len(REGEXES)
+_COMPILED = []   # compiled REGEXES
+POSITIVES = []   # per pattern: strings (<= 4 characters over a small alphabet) that it matches as a whole - planted
+                 # as lines / texts so that `-full` holds for some inputs, whatever the pattern
+SUBS = []        # (regex index, replacement index) pairs whose template is valid for the pattern
+_PROBES = ('', 'a', 'ab\n', 'a b\nA\n', 'aab1,\n', ' a,b.\n\n1')
 
 
-def _valid_subs():
-    out = []
-    for r, pat in enumerate(_COMPILED):
-        for q, rep in enumerate(REPLACEMENTS):
-            try:
-                for probe in ('', 'a', 'ab\n', 'a b\nA\n', 'aab1,\n'):
-                    pat.sub(rep, probe)
-            except (re.error, IndexError):
-                continue
-            out.append((r, q))
-    return out
-
-
-def _positives():
-    """for every pattern of the family the strings (<= 4 characters over a small alphabet) that it matches as a whole:
-    used to plant lines / texts on which `-full` holds, whatever the pattern"""
+def _strings():
     import itertools
     alpha = 'ab ,.1v2A\n'
-    strings = ['']
+    out = ['']
     for n in range(1, 5):
-        strings += [''.join(t) for t in itertools.product(alpha, repeat=n)]
-    out = []
-    for pat in _COMPILED:
-        pos = [x for x in strings if pat.fullmatch(x)]
-        out.append(pos[:400])
+        out += [''.join(t) for t in itertools.product(alpha, repeat=n)]
     return out
 
 
-POSITIVES = _positives()
-SUBS = _valid_subs()  # (regex index, replacement index) pairs whose template is valid for the pattern
+_STRINGS = _strings()
+
+
+def _pair_ok(pat, rep):
+    try:
+        for probe in _PROBES:
+            pat.sub(rep, probe)
+    except (re.error, IndexError):
+        return False
+    return True
+
+
+def _register_regex(r):
+    """bookkeeping for REGEXES[r] (already appended)"""
+    p, ic = REGEXES[r]
+    pat = re.compile(p, re.IGNORECASE if ic else 0)
+    _COMPILED.append(pat)
+    POSITIVES.append([x for x in _STRINGS if pat.fullmatch(x)][:400])
+    for q, rep in enumerate(REPLACEMENTS):
+        if _pair_ok(pat, rep):
+            SUBS.append((r, q))
+
+
+for _r in range(len(REGEXES)):
+    _register_regex(_r)
+
+
+def rid_of(p, ic=False):
+    """index of a pattern in the family, added if new (replays, corpus, generated patterns)"""
+    if (p, ic) not in REGEXES:
+        re.compile(p)
+        REGEXES.append((p, ic))
+        _register_regex(len(REGEXES) - 1)
+    return REGEXES.index((p, ic))
+
+
+def kid_of(p, ic, rep):
+    r = rid_of(p, ic)
+    if rep not in REPLACEMENTS:
+        REPLACEMENTS.append(rep)
+        q = len(REPLACEMENTS) - 1
+        for r2, pat in enumerate(_COMPILED):
+            if _pair_ok(pat, rep):
+                SUBS.append((r2, q))
+    return SUBS.index((r, REPLACEMENTS.index(rep)))  # ValueError: the template is not valid for the pattern
+
+
+_ATOMS = ['a', 'b', 'A', ' ', ',', r'\.', '.', r'\s', r'\n', '[ab]', r'[^\n]', r'\d', 'x', '1', r'\t', 'é', r'[a-z]', r'\S', ';']
+
+
+def gen_regex(rng, depth=2):
+    """a random small pattern: atoms, concatenation, alternation, groups, (lazy) quantifiers on atoms or on groups
+    without inner quantifiers (no nested quantifiers: matching stays cheap), anchors, flags"""
+    def atom():
+        return rng.choice(_ATOMS)
+
+    def plain(d):  # no quantifier inside
+        r = rng.below(10)
+        if d <= 0 or r < 5:
+            return atom()
+        if r < 8:
+            return plain(d - 1) + plain(d - 1)
+        return '(?:' + plain(d - 1) + '|' + plain(d - 1) + ')'
+
+    def g(d):
+        r = rng.below(20)
+        if d <= 0 or r < 5:
+            return atom()
+        if r < 9:
+            return g(d - 1) + g(d - 1)
+        if r < 11:
+            return '(?:' + g(d - 1) + '|' + g(d - 1) + ')'
+        if r < 13:
+            return '(' + g(d - 1) + ')'
+        if r < 17:
+            x = atom() if rng.chance(0.6) else '(?:' + plain(d - 1) + ')'
+            return x + rng.choice(['*', '+', '?', '+?', '*?', '??', '{2}'])
+        if r < 18:
+            return '^' + g(d - 1)
+        if r < 19:
+            return g(d - 1) + '$'
+        return g(d - 1) + '|' + g(d - 1)
+    p = g(depth)
+    if rng.chance(0.1):
+        p = rng.choice(['(?m)', '(?s)']) + p
+    return p, rng.chance(0.1)
+
+
+def gen_replacement(rng):
+    pieces = ['', 'X', r'\n', r'\g<0>', r'\1', ' ', 'b', r'\\', r'\t', ',', r'\g<1>']
+    return ''.join(rng.choice(pieces) for _ in range(rng.randint(1, 2)))
+
+
+def extend_family(rng, n_re, n_rep):
+    """the generated part of the family: derived from the run's seed, first thing in a run"""
+    for _ in range(n_rep):
+        rep = gen_replacement(rng)
+        if rep not in REPLACEMENTS:
+            kid_of('a', False, rep) if _pair_ok(_COMPILED[0], rep) else REPLACEMENTS.append(rep)
+    for _ in range(n_re):
+        p, ic = gen_regex(rng, rng.randint(1, 3))
+        try:
+            rid_of(p, ic)
+        except re.error:
+            continue
+
 
 CMPS = [('==', 'CEq'), ('!=', 'CNe'), ('<', 'CLt'), ('<=', 'CLe'), ('>', 'CGt'), ('>=', 'CGe')]
 
@@ -884,11 +976,23 @@ def tup(x):
         if x and isinstance(x[0], str) and x[0] in _NODE_NAMES:
             return tuple(tup(y) for y in x)
         return [tup(y) for y in x]
-    if isinstance(x, dict):  # symbolic references of corpus files: {"re": pattern[, "ic": true]}, {"sub": [pattern, replacement]}
+    if isinstance(x, dict):  # symbolic references: {"re": pattern[, "ic": true]}, {"sub": [pattern, replacement][, "ic": true]}
         if 're' in x:
-            return REGEXES.index((x['re'], bool(x.get('ic', False))))
-        r = REGEXES.index((x['sub'][0], bool(x.get('ic', False))))
-        return SUBS.index((r, REPLACEMENTS.index(x['sub'][1])))
+            return rid_of(x['re'], bool(x.get('ic', False)))
+        return kid_of(x['sub'][0], bool(x.get('ic', False)), x['sub'][1])
+    return x
+
+
+def sym(x):
+    """the AST with pattern numbers replaced by the patterns themselves (what replays and corpus files store)"""
+    if isinstance(x, tuple) and x and x[0] in ('matches', 'grep'):
+        p, ic = REGEXES[x[2]]
+        return [x[0], x[1], {'re': p, 'ic': ic}]
+    if isinstance(x, tuple) and x and x[0] == 'replace':
+        r, q = SUBS[x[3]]
+        return ['replace', sym(x[1]), x[2], {'sub': [REGEXES[r][0], REPLACEMENTS[q]], 'ic': REGEXES[r][1]}]
+    if isinstance(x, (tuple, list)):
+        return [sym(y) for y in x]
     return x
 
 
@@ -902,7 +1006,7 @@ def case_json(case):
             'expression': case.get('src'), 'files_in_home_dir': case.get('files'), 'case_file': case.get('case_file'),
             'source_kind': {'file': 'existing file', 'str': 'constant string'}[case['model'][0]], 'text': case['model'][1],
             'mem_buff_size': case['mem'], 'implementation_observed': case.get('obs'),
-            'reference_semantics_says': case.get('ref'), 'expr': case['expr'], 'model': case['model'], 'mem': case['mem']}
+            'reference_semantics_says': case.get('ref'), 'expr': sym(case['expr']), 'model': list(case['model']), 'mem': case['mem']}
 
 
 def has_exotic(case):
@@ -964,6 +1068,11 @@ def observe_all(tmp, cases, res):
 def run(ctx, res, sizes=None):
     rng = ctx.rng
     n_t, n_m, n_p = sizes or ((1300, 1700, 500) if ctx.quick else (24000, 32000, 4000))
+    n_fam = len(REGEXES)
+    extend_family(rng, 50 if ctx.quick else 400, 8 if ctx.quick else 30)
+    res.extra['regex_family'] = {'fixed_patterns': N_FIXED_REGEXES, 'generated_patterns_this_run': len(REGEXES) - n_fam,
+                                 'replacement_strings': len(REPLACEMENTS), 'valid_pattern_replacement_pairs': len(SUBS),
+                                 'generated_examples': [p for p, _ in REGEXES[n_fam:n_fam + 12]]}
     bad = check_isspace_table()
     if bad:
         res.errors.append('py_is_space of Spec/C05.v disagrees with str.isspace on code points %s' % bad[:10])
